@@ -1,10 +1,13 @@
-import BornoModel.Parser
+import BornoModel.Lemmas.ParseFits
+import BornoModel.Lemmas.ParseElse
 /-! # C01 — accepted programs get the syntax tree the documented grammar prescribes
 
-(first layer: the shape equations of the descent; the soundness / round-trip theorems over the
-tree renderer live in `Props/C01Round.lean` once proved) -/
+Three layers: (1) the shape equations of the descent; (2) `fits`: every tree the parser returns
+obeys the ladder, for every token list and fuel (so precedence and associativity are facts about
+the *tree*, not about one parsing step); (3) `elseOk`: every `else` in a returned tree sits on the
+nearest `if`.  That the accepted text is exactly the rendering of the returned tree is C08. -/
 namespace Borno.Props.C01
-open Borno Parser
+open Borno Parser Grammar
 
 /-- the published ladder: eleven left-associative levels, loosest first; every binary operator sits on exactly one level -/
 theorem ladder_shape :
@@ -83,5 +86,110 @@ theorem else_binds_nearest_if (f : Nat) (t e : Token) (r r1 r2 r3 r5 r6 : List T
     statement (f + 1) (t :: r) = .ok (.ifS c th (some el)) r6 (ds1 ++ ds2) := by
   unfold statement; simp only [peekTokS, ht, h1, h2, h3, PR.bind, PR.toSR, SR.bind, h4, h5, he, if_true]
   simp
+
+/-! ## layer 2: returned trees fit the ladder -/
+
+/-- whatever `expression` returns, for any tokens and any fuel, fits the ladder at every node -/
+theorem parsed_expression_fits (f : Nat) (ts : List Token) (e : Expr) (r : List Token)
+    (h : assignment f ts = .ok e r) : fits 0 e = true := (fitsP f).asg ts e r h
+
+/-- the ladder level of the operator at the root of a tree -/
+def topLevel : Expr → Option Nat
+  | .binary _ op _ _ => levelOf op
+  | .logical _ op _ => levelOf op
+  | _ => none
+
+/-- a binary / logical node standing at position `p` has a root operator of level ≥ `p - 1` -/
+theorem fits_top {p j : Nat} {e : Expr} (h : fits p e = true) (ht : topLevel e = some j) : p ≤ j + 1 := by
+  cases e <;> simp only [topLevel] at ht <;> try (cases ht)
+  all_goals (simp only [fits, ht, Bool.and_eq_true, decide_eq_true_eq] at h; exact h.1.1.1)
+
+/-- binary operators group by level and associate to the left: in a fitting tree, a binary node of
+    level `j` has a left child whose root operator is of level ≥ `j` (equal allowed) and a right
+    child whose root operator is of level > `j` (strictly tighter) -/
+theorem binary_children_levels {p : Nat} {l r : Expr} {op : TT} {ln : Nat} (h : fits p (.binary l op ln r) = true) :
+    ∃ j, levelOf op = some j ∧ levelNode j = .binary ∧
+      (∀ jl, topLevel l = some jl → j ≤ jl) ∧ (∀ jr, topLevel r = some jr → j < jr) := by
+  simp only [fits] at h
+  split at h
+  · rename_i j hj
+    simp only [Bool.and_eq_true, decide_eq_true_eq, beq_iff_eq] at h
+    refine ⟨j, hj, h.1.1.2, fun jl hl => ?_, fun jr hr => ?_⟩
+    · have := fits_top h.1.2 hl; omega
+    · have := fits_top h.2 hr; omega
+  · cases h
+
+theorem logical_children_levels {p : Nat} {l r : Expr} {op : TT} (h : fits p (.logical l op r) = true) :
+    ∃ j, levelOf op = some j ∧ levelNode j = .logical ∧
+      (∀ jl, topLevel l = some jl → j ≤ jl) ∧ (∀ jr, topLevel r = some jr → j < jr) := by
+  simp only [fits] at h
+  split at h
+  · rename_i j hj
+    simp only [Bool.and_eq_true, decide_eq_true_eq, beq_iff_eq] at h
+    refine ⟨j, hj, h.1.1.2, fun jl hl => ?_, fun jr hr => ?_⟩
+    · have := fits_top h.1.2 hl; omega
+    · have := fits_top h.2 hr; omega
+  · cases h
+
+/-- an assignment never stands as an operand: only at position 0 (statement level, inside
+    brackets / parentheses / argument lists, or as the value of another assignment: right-associativity) -/
+theorem assign_only_at_top {p : Nat} {e : Expr}
+    (ha : (∃ n l v ln, e = .assign n l v ln) ∨ (∃ a i v ln, e = .arrayAssign a i v ln) ∨ (∃ o q v ln, e = .propAssign o q v ln))
+    (h : fits p e = true) : p = 0 := by
+  rcases ha with ⟨n, l, v, ln, rfl⟩ | ⟨a, i, v, ln, rfl⟩ | ⟨o, q, v, ln, rfl⟩ <;>
+    simp only [fits, Bool.and_eq_true, beq_iff_eq] at h
+  · exact h.1
+  · exact h.1.1.1
+  · exact h.1.1
+
+/-- prefix operators bind tighter than every binary operator (`**` included): the operand of a
+    prefix operator is never a binary / logical node -/
+theorem unary_operand_tight {p : Nat} {op : TT} {ln : Nat} {e : Expr} (h : fits p (.unary op ln e) = true) :
+    topLevel e = none ∧ Expect.unaryOps.contains op = true := by
+  simp only [fits, Bool.and_eq_true, decide_eq_true_eq] at h
+  refine ⟨?_, h.1.2⟩
+  cases ht : topLevel e with
+  | none => rfl
+  | some j =>
+    have h1 := fits_top h.2 ht
+    have h2 : j < nLevels := by
+      cases e <;> simp only [topLevel] at ht <;> try (cases ht)
+      all_goals (unfold levelOf at ht; have := List.findIdx?_eq_some_iff_getElem.mp ht; exact this.1)
+    have hn : nLev = nLevels := rfl
+    omega
+
+/-- suffixes bind tightest: the callee / indexed / dereferenced expression is never a prefix,
+    binary, logical or assignment node (it is a primary or another suffix: they chain to the left) -/
+theorem suffix_target_tightest {p : Nat} {c : Expr}
+    (h : (∃ ln args, fits p (.call c ln args) = true) ∨ (∃ i ln, fits p (.arrayAccess c i ln) = true) ∨ (∃ q ln, fits p (.propAccess c q ln) = true)) :
+    fits (nLevels + 2) c = true := by
+  rcases h with ⟨ln, args, h⟩ | ⟨i, ln, h⟩ | ⟨q, ln, h⟩ <;> simp only [fits, Bool.and_eq_true, decide_eq_true_eq] at h
+  · exact h.1.2
+  · exact h.1.2
+  · exact h.2
+
+/-- non-vacuity: `1 + 2 * 3 - 4` fits as `(1 + (2 * 3)) - 4` and not as `1 + (2 * (3 - 4))` -/
+example :
+    let n (k : Nat) : Expr := .literal .nil k
+    fits 0 (.binary (.binary (n 1) .PLUS 1 (.binary (n 2) .STAR 1 (n 3))) .MINUS 1 (n 4)) = true ∧
+    fits 0 (.binary (n 1) .PLUS 1 (.binary (n 2) .STAR 1 (.binary (n 3) .MINUS 1 (n 4)))) = false := by decide
+
+/-! ## layer 3: the dangling else -/
+
+/-- in every tree `Parse` returns (with or without lenient diagnostics), the then-branch of each
+    `if … else` is closed: the `else` could not have belonged to an inner `if` -/
+theorem else_attaches_to_nearest_if (f : Nat) (ts : List Token) (p : List Stmt) (r : List Token) (ds : List Diag)
+    (h : program f ts = .ok p r ds) : elseOkAll p = true := program_elseOk f ts p r ds h
+
+/-- the reason: a statement that ends in an else-less `if` is never followed by `ELSE` -/
+theorem open_if_takes_the_else (f : Nat) (ts : List Token) (s : Stmt) (t : Token) (r : List Token) (ds : List Diag)
+    (h : statement f ts = .ok s (t :: r) ds) (ho : openIf s = true) : t.tt ≠ .ELSE :=
+  ((elseP f).stmt ts s (t :: r) ds h).2 ho t r rfl
+
+/-- non-vacuity: `if (a) if (b) x; else y;` with the else on the inner `if` is fine, on the outer one is not -/
+example :
+    let e : Expr := .literal .nil 1
+    elseOk (.ifS e (.ifS e (.expr e) (some (.expr e))) none) = true ∧
+    elseOk (.ifS e (.ifS e (.expr e) none) (some (.expr e))) = false := by decide
 
 end Borno.Props.C01
